@@ -48,9 +48,9 @@ __CPROVER_ensures((gh_qi0 == 0 && gh_RK >= gh_r0 && gh_RK - gh_r0 < (gh_cf >> 1)
 /* the loop inside the normal-mode lambda: resume every handle */
 #define CV_LOOP_sp_suspend_now_lambda_0 \
   __CPROVER_assigns(CV_LOOP_LOCALS_sp_suspend_now_lambda_0, MODEL_ASSIGNS, *TLS_GUARD) \
-  __CPROVER_loop_invariant(SN_LOOP_COMMON(this_1->this, __begin4, __end4) && QI == QIMPL) \
-  __CPROVER_loop_invariant(gh_n_resume >= gh_r0 + (cv_i64)(__begin4 - SN_BASE(this_1->this))) \
-  __CPROVER_loop_invariant(gh_n_resume == gh_r0 + (cv_i64)(__begin4 - SN_BASE(this_1->this)))  \
+  __CPROVER_loop_invariant(SN_LOOP_COMMON(this->this, __begin4, __end4) && QI == QIMPL) \
+  __CPROVER_loop_invariant(gh_n_resume >= gh_r0 + (cv_i64)(__begin4 - SN_BASE(this->this))) \
+  __CPROVER_loop_invariant(gh_n_resume == gh_r0 + (cv_i64)(__begin4 - SN_BASE(this->this)))  \
   __CPROVER_loop_invariant((gh_RK >= gh_r0 && gh_RK < gh_n_resume) ==> gh_res_trk == gh_Hr)
 
 #ifdef CV_HAS_sp_suspend_now
